@@ -18,6 +18,23 @@ def _unhex(h):
         return "?"
 
 
+# Behaviour-preserving rewrites of the anchored code on which the full flow was run (mutated object files / a reformatted
+# grammar in scratch) and must stay silent; patches (documentation only, not applied by the check): corpus/C15/negative_controls/.
+NEGATIVE_CONTROLS = [
+    "nc1_translator_reformat: %left/%right block re-broken over several lines with comments, two NEW tokens at levels outside the 13 "
+    "documented ones (T_SET_NULLISH, %right T_PIPELINE), MakeRBinaryOp renamed, one rule action spread over lines, comment after a lexer rule",
+    "nc2_messages: other wording of the operator type errors, division errors, recursion error, array bounds, undefined variable, "
+    "not-callable and `in` errors (error classes are not read from message texts; the recursion/parser-capacity wordings are calibrated "
+    "from the build at harness start)",
+    "nc3_iteration_order: array == compared from the back, Array::Contains as a reverse hand-written loop, union() via vector+sort+unique "
+    "instead of std::set",
+    "nc4_refactor_guards: Defer in Expression::Evaluate replaced by an equivalent try/catch that gives the level back on every path, && and "
+    "`in` with renamed locals / reordered guards / early return, `Depth >= limit` for `Depth + 1 > 300`, call locals built by ShallowClone",
+    "nc5_same_binary64: number + via temporaries in swapped order, % as a - (a / b) * b, Convert::ToString via snprintf, lexer `* 60 * 60` "
+    "as `* 3600.0` (literal values are an oracle input taken from the real lexer)",
+]
+
+
 class C15(Check):
     prop = "C15"
     technique = ("Lean 4 proof about a definitional interpreter (heap, frames, depth limit 300, one case per DoEvaluate of expression.cpp, "
@@ -48,7 +65,9 @@ class C15(Check):
         "documented precedence table of doc/17-language-reference.md transcribed once into IcingaProofs/C15.lean (the document gives no associativity: "
         "left for binary levels, none for relational/equality as the grammar declares and the harness confirms by `a < b < c` being a syntax error)",
         "Float (binary64) in the compiled driver computes what the C++ double computes; number formatting re-implemented exactly over the bit pattern",
-        "error classes: the harness maps C++ exception messages to the model's error kinds by substring",
+        "errors are compared as value / script error / recursion error only; the recursion error and the parser's capacity error are recognised by "
+        "comparing with the message this very build produces for a calibration program (no wording is hard-coded)",
+        "number literals (incl. durations) are an oracle input: the binary64 the real lexer produces is what the model receives",
     ]
     assumptions = [
         "generated programs stay inside the modelled domain except where the driver reports skipped_unmodelled",
@@ -299,7 +318,7 @@ class C15(Check):
                     except core.TieBroken:
                         return False
                     want = l.split(" model=")[1].split(" impl=")[0][:12] if kind == "MISMATCH" and " model=" in l else ""
-                    return any(x.startswith(kind) and (clause in x) and (want in x) for x in dout)
+                    return any(x.startswith(kind) and (clause in x) and (want in x) and "impl=syntax" not in x for x in dout)
 
                 shown = case
                 if case.startswith("P ") and still(case):
